@@ -739,6 +739,10 @@ func (c *Client) readResponseTagged(tag, typ string) (startTLS *startTLSCommand,
 	if hasSP && !c.dec.ExpectText(&text) {
 		return nil, fmt.Errorf("in resp-text: %v", c.dec.Err())
 	}
+	if err := c.dec.Err(); err != nil {
+		// e.g. the connection failed in the middle of the line
+		return nil, fmt.Errorf("in response-tagged: %v", err)
+	}
 
 	var cmdErr error
 	switch typ {
